@@ -69,6 +69,7 @@
 #include "al/os.h"
 #include "threadpool/threadpool.h"
 #include "threadpool/threadpool_msg_sys.h"
+#include "utils/verif_hooks.h"
 
 #ifdef THREAD_POOL_SETTINGS_XML
 #	include "utils/buf_str.h"
@@ -1121,6 +1122,7 @@ tp_shutdown(tp_p tp) {
 		return;
 	if (0 != tp->shutdown)
 		return;
+	LCB_VERIF_POINT(LCB_VP_SHUTDOWN_TEST_TO_INC);
 	tp->shutdown ++;
 	/* Private virtual thread. */
 	tp->pvt->state = TP_THREAD_STATE_STOP;
@@ -1151,6 +1153,7 @@ tp_shutdown_wait(tp_p tp) {
 		return (EDEADLK);
 
 	for (size_t i = 0; i < tp->s.threads_max; i ++) {
+		LCB_VERIF_POINT(LCB_VP_SHUTDOWN_WAIT_BEFORE_JOIN);
 		if (TP_THREAD_STATE_STOP == tp->threads[i].state)
 			continue;
 		error = pthread_join(tp->threads[i].pt_id, NULL);
@@ -1323,7 +1326,9 @@ tp_thread_proc(void *data) {
 		tpt->tp->s.tpt_on_start(tpt);
 	}
 
+	LCB_VERIF_POINT(LCB_VP_THREAD_PROC_BEFORE_LOOP);
 	tpt_loop(tpt);
+	LCB_VERIF_POINT(LCB_VP_THREAD_PROC_AFTER_LOOP);
 
 	if (NULL != tpt->tp->s.tpt_on_stop) {
 		tpt->tp->s.tpt_on_stop(tpt);
@@ -1334,6 +1339,7 @@ tp_thread_proc(void *data) {
 	pthread_self_name_set(NULL);
 	memset(&tpt->pt_id, 0x00, sizeof(pthread_t));
 	tpt->state = TP_THREAD_STATE_STOP; /* Reset state on exit. */
+	LCB_VERIF_POINT(LCB_VP_THREAD_PROC_AFTER_STOP_STORE);
 	tpt->tp->threads_cnt --;
 
 	return (NULL);
